@@ -54,4 +54,6 @@ def check(run, tier):
 
 
 def replay(run, rp):
-    replay_calls(run, rp)
+    from ._twin import replay_any
+
+    replay_any(run, rp)
